@@ -405,5 +405,5 @@ func patience() time.Duration {
 	if impatient.Load() {
 		return 10 * time.Second
 	}
-	return 600 * time.Second
+	return 300 * time.Second
 }
